@@ -18,6 +18,23 @@ fn main() {
       }
       return;
    }
+   if argv.get(1).map(|s| s.as_str()) == Some("fuzz-stats") {
+      // libprops fuzz-stats <target> DIR: every file of a corpus through the oracle; prints {"files":..,"nontrivial":..,"failures":[..]}
+      std::panic::set_hook(Box::new(|_| {}));
+      let (mut files, mut nt, mut failures) = (0u64, 0u64, vec![]);
+      let mut names: Vec<_> = std::fs::read_dir(&argv[3]).expect("dir").filter_map(|e| e.ok()).map(|e| e.path()).filter(|p| p.is_file()).collect();
+      names.sort();
+      for f in names {
+         files += 1;
+         match fuzz::entry(&argv[2], &std::fs::read(&f).expect("read")) {
+            Ok(true) => nt += 1,
+            Ok(false) => {},
+            Err(e) => failures.push(serde_json::json!({"file": f.to_string_lossy(), "failure": e})),
+         }
+      }
+      println!("{}", serde_json::json!({"files": files, "nontrivial": nt, "failures": failures}));
+      return;
+   }
    if argv.get(1).map(|s| s.as_str()) == Some("fuzz-corpus") {
       fuzz::write_corpus(&argv[2], &argv[3], argv[4].parse().expect("n"), argv[5].parse().expect("seed"));
       return;
